@@ -179,12 +179,21 @@ fn cmd_run(args: &[String]) {
     let mut violating = 0u64;
     let mut samples = vec![];
     let stdout = std::io::stdout();
+    let mut progress_file = hashfile
+        .as_ref()
+        .and_then(|h| std::fs::File::create(format!("{h}.progress")).ok());
     for k in 0..count {
         let index = first + k * stride;
         if t0.elapsed().as_secs_f64() > budget_s {
             break;
         }
         CUR_INDEX.store(index, Ordering::Relaxed);
+        // leave a trace of where we are, in case the process is killed (out of memory, abort)
+        if let Some(f) = progress_file.as_mut() {
+            use std::io::{Seek, SeekFrom};
+            let _ = f.seek(SeekFrom::Start(0));
+            let _ = write!(f, "{index:<20}");
+        }
         let seed = case_seed(base, prop, index);
         let plans = props::generate(prop, &props::GenCtx { seed, index, thorough });
         if plans.is_empty() {
